@@ -12,6 +12,9 @@
 EXTENDS Naturals, Sequences, FiniteSets, TLC, Json
 
 CONSTANTS SkipEmptyGames, GameSeparator,
+          Col0Comments,    \* FALSE: as coded, '{' or ';' in the first column does not
+                           \* start a comment; TRUE: as the PBN standard has it
+          CommentStyles,   \* subset of {"none","semi","brace","block","block0"}
           MaxGames,        \* games per generated file
           Blanks0, BlanksMid, BlanksEnd,   \* sets of blank-line run lengths
           Headers,         \* set of numbers of '%' header lines
@@ -23,6 +26,23 @@ Pct   == [k |-> "pct"]
 Row   == [k |-> "row"]
 Tag(n, v) == [k |-> "tag", name |-> n, val |-> v]
 
+(* Commentary (growth beyond the listed properties; extract_content):       *)
+(*   TagC(n, v, tail)  a tag pair followed on the same line by "; text"     *)
+(*                     (tail "semi"), "{ text }" ("brace") or "{ text"      *)
+(*                     that stays open ("open")                             *)
+(*   Open0             a line whose first two characters are "{ "           *)
+(*   CText(look, ..)   a line meant to be inside a comment that looks like  *)
+(*                     a blank line, a tag pair, a '%' line or plain text   *)
+(*   Close(then)       "text } " followed by nothing (None) or a line       *)
+TagC(n, v, tail) == [k |-> "tagc", name |-> n, val |-> v, tail |-> tail]
+Open0 == [k |-> "open0"]
+CText(look, n, v) == [k |-> "ctext", look |-> look, name |-> n, val |-> v]
+NoLine == [k |-> "none"]
+Close(then) == [k |-> "close", then |-> then]
+\* how a line meant as commentary reads when the parser is not in a comment
+Demote(l) == CASE l.look = "blank" -> Blank [] l.look = "pct" -> Pct
+               [] l.look = "tag" -> Tag(l.name, l.val) [] OTHER -> Row
+
 (* ------------------------ the parser, as coded ------------------------- *)
 \* first occurrence of every tag name in a buffer of tag lines
 RECURSIVE FirstWins(_, _)
@@ -32,20 +52,35 @@ FirstWins(buf, acc) ==
        IN IF \E p \in acc : p[1] = t.name THEN FirstWins(Tail(buf), acc)
           ELSE FirstWins(Tail(buf), acc \cup {<<t.name, t.val>>})
 
-RECURSIVE Parse(_, _, _, _)
-Parse(lines, buf, content, games) ==
+RECURSIVE Parse(_, _, _, _, _)
+Parse(lines, buf, content, games, inc) ==
   IF lines = <<>>
   THEN IF content /\ (FirstWins(buf, {}) # {} \/ ~SkipEmptyGames)
        THEN Append(games, FirstWins(buf, {})) ELSE games
   ELSE LET l == Head(lines) IN
+       IF inc
+       THEN \* inside "{ ... }": everything up to the closing brace is swallowed,
+            \* blank lines and tag pairs included; what follows the brace is read
+            IF l.k = "close"
+            THEN Parse((IF l.then.k = "none" THEN <<>> ELSE <<l.then>>) \o Tail(lines),
+                       buf, TRUE, games, FALSE)
+            ELSE Parse(Tail(lines), buf, content, games, TRUE)
+       ELSE
        IF l.k = "blank"
        THEN LET g == FirstWins(buf, {})
             IN Parse(Tail(lines), <<>>, FALSE,
-                     IF g # {} \/ ~SkipEmptyGames THEN Append(games, g) ELSE games)
-       ELSE IF l.k = "pct" THEN Parse(Tail(lines), buf, content, games)
-       ELSE IF l.k = "tag" THEN Parse(Tail(lines), Append(buf, l), TRUE, games)
-       ELSE Parse(Tail(lines), buf, TRUE, games)          \* table row
-ParseFile(lines) == Parse(lines, <<>>, FALSE, <<>>)
+                     IF g # {} \/ ~SkipEmptyGames THEN Append(games, g) ELSE games, FALSE)
+       ELSE IF l.k = "pct" THEN Parse(Tail(lines), buf, content, games, FALSE)
+       ELSE IF l.k = "tag" THEN Parse(Tail(lines), Append(buf, l), TRUE, games, FALSE)
+       ELSE IF l.k = "tagc"
+            THEN Parse(Tail(lines), Append(buf, Tag(l.name, l.val)), TRUE, games, l.tail = "open")
+       ELSE IF l.k = "open0" THEN Parse(Tail(lines), buf, TRUE, games, Col0Comments)
+       ELSE IF l.k = "ctext" THEN Parse(<<Demote(l)>> \o Tail(lines), buf, content, games, FALSE)
+       ELSE IF l.k = "close"
+            THEN Parse((IF l.then.k = "none" THEN <<>> ELSE <<l.then>>) \o Tail(lines),
+                       buf, TRUE, games, FALSE)
+       ELSE Parse(Tail(lines), buf, TRUE, games, FALSE)          \* table row
+ParseFile(lines) == Parse(lines, <<>>, FALSE, <<>>, FALSE)
 
 (* ------------------------ the writer, as coded ------------------------- *)
 Mandatory == <<"Event", "Site", "Date", "Board", "West", "North", "East", "South",
@@ -73,6 +108,29 @@ NextExtra(x) == CASE x = "none" -> "table" [] x = "table" -> "before"
                   [] x = "before" -> "dup" [] x = "dup" -> "between"
                   [] x = "between" -> "after" [] OTHER -> "none"
 Sym(name, g) == name \o ToString(g)              \* symbolic value of game g
+\* commentary placed after the first required tag of a game
+CommentBlock == <<CText("text", "", ""), CText("blank", "", ""),
+                  CText("tag", "Board", "in-comment"), CText("pct", "", "")>>
+WithComment(req, cs) ==
+  LET t == req[1] IN
+  CASE cs = "semi"  -> <<TagC(t.name, t.val, "semi")>> \o Tail(req)
+    [] cs = "brace" -> <<TagC(t.name, t.val, "brace")>> \o Tail(req)
+    [] cs = "block" -> <<TagC(t.name, t.val, "open")>> \o CommentBlock
+                        \o <<Close(req[2])>> \o Tail(Tail(req))
+    [] cs = "block0" -> <<t, Open0>> \o CommentBlock \o <<Close(NoLine)>> \o Tail(req)
+    [] OTHER -> req
+GameLinesC(g, perm, extra, cs) ==
+  LET req == WithComment([k \in 1..4 |-> Tag(Required[perm[k]], Sym(Required[perm[k]], g))], cs)
+      n == Len(req)
+  IN  (IF extra = "before" THEN <<Tag("Event", Sym("Event", g))>> ELSE <<>>)
+      \o (IF extra = "between"
+          THEN SubSeq(req, 1, n - 2) \o <<Tag("Site", Sym("Site", g))>> \o SubSeq(req, n - 1, n)
+          ELSE req)
+      \o (IF extra = "after" THEN <<Tag("Scoring", Sym("Scoring", g))>>
+          ELSE IF extra = "table"
+               THEN <<Tag("OptimumResultTable", "Declarer;Denomination"), Row, Row>>
+          ELSE IF extra = "dup" THEN <<Tag("Board", "ignored" \o ToString(g))>>
+          ELSE <<>>)
 GameLines(g, perm, extra) ==
   LET req == [k \in 1..4 |-> Tag(Required[perm[k]], Sym(Required[perm[k]], g))]
   IN  (IF extra = "before" THEN <<Tag("Event", Sym("Event", g))>> ELSE <<>>)
@@ -96,26 +154,29 @@ Rep(x, n) == [k \in 1..n |-> x]
 VARIABLES file, expect, meta
 vars == <<file, expect, meta>>
 
-RECURSIVE Body(_, _, _, _, _)
+RECURSIVE Body(_, _, _, _, _, _)
 \* games g..n: game g uses permutation index pi and extra ex; later games
-\* use the following permutation / extra
-Body(g, n, pi, ex, mid) ==
+\* use the following permutation / extra; commentary of style cs in the
+\* odd-numbered games
+Body(g, n, pi, ex, mid, cs) ==
   IF g > n THEN <<>>
-  ELSE GameLines(g, PermSeq[((pi - 1) % 24) + 1], ex)
+  ELSE GameLinesC(g, PermSeq[((pi - 1) % 24) + 1], ex, IF g % 2 = 1 THEN cs ELSE "none")
        \o (IF g < n THEN Rep(Blank, mid) ELSE <<>>)
-       \o Body(g + 1, n, pi + 7, NextExtra(ex), mid)
+       \o Body(g + 1, n, pi + 7, NextExtra(ex), mid, cs)
 RECURSIVE Expect(_, _, _)
 Expect(g, n, ex) == IF g > n THEN <<>>
                     ELSE <<ExpectedGame(g, ex)>> \o Expect(g + 1, n, NextExtra(ex))
 
 Init ==
   \E n \in 0..MaxGames, pi \in 1..Orders, ex \in Extras,
-     b0 \in Blanks0, mid \in BlanksMid, be \in BlanksEnd, h \in Headers :
+     b0 \in Blanks0, mid \in BlanksMid, be \in BlanksEnd, h \in Headers, cs \in CommentStyles :
      /\ (n = 0 => pi = 1 /\ ex = "none" /\ mid = CHOOSE x \in BlanksMid : TRUE)
+     /\ (n = 0 => cs = CHOOSE x \in CommentStyles : TRUE)
      /\ (n <= 1 => mid = CHOOSE x \in BlanksMid : TRUE)
-     /\ file = Rep(Pct, h) \o Rep(Blank, b0) \o Body(1, n, pi, ex, mid) \o Rep(Blank, be)
+     /\ file = Rep(Pct, h) \o Rep(Blank, b0) \o Body(1, n, pi, ex, mid, cs) \o Rep(Blank, be)
      /\ expect = Expect(1, n, ex)
-     /\ meta = [n |-> n, pi |-> pi, ex |-> ex, b0 |-> b0, mid |-> mid, be |-> be, h |-> h]
+     /\ meta = [n |-> n, pi |-> pi, ex |-> ex, b0 |-> b0, mid |-> mid, be |-> be, h |-> h,
+                cs |-> cs]
 Next == UNCHANGED vars
 Spec == Init /\ [][Next]_vars
 
